@@ -77,7 +77,7 @@ SPEC = Spec(
         "storage.Client contract (extension/xextension/storage): Batch is atomic and durable, Get of a missing key returns nil, "
         "Delete of a missing key is a no-op; the process dies only between two client calls",
         "the index byte codecs are modelled and proved separately (C01_index_codec, C01_index_array_codec) and tied by their own "
-        "differential; in every 8th pq/block case the raw storage map is printed in hex and decoded by the Lean functions readIndexes / "
+        "differential; in every 16th pq/block case the raw storage map is printed in hex and decoded by the Lean functions readIndexes / "
         "readDi / readItemWith (the subjects of C01_bytes_refine) and compared with the model's store (prop bytes)",
         "indexes are natural numbers in the model (uint64 in the code): fewer than 2^64 enqueues over the life of a storage directory",
         "operations on one queue are serialised by persistentQueue.mu, so a sequential model is sound; goroutine-level concurrency of "
